@@ -1,12 +1,13 @@
 """C11 - sessions on one socket are isolated; one Accept per new peer (DESIGN.md section 5, C11)."""
 import vcheck as V
 import udp_common as U
+import kcp_common as K
 
 META = {
     "engine": "listener",
     "technique": "Coq invariant and frame proofs over all event interleavings of the transcribed listener demultiplexer (abstract sessions, abstract gate) + extraction-based differential replay of a real listener driven synchronously",
     "level_text": "Machine-checked for an arbitrary address type, session type and integrity gate, over every interleaving of datagram arrivals from any addresses, Accept, the two halves of UDPSession.Close, Listener.Close and backlog closing: the session table has no duplicate keys and the backlog at most acceptBacklog entries; an event for address a changes at most the entry at a (every other session is EQUAL before and after) and the accept queue only by appending the session created at a; sessions ever queued for a = creation events at a (new peer with room: exactly one fresh session fed only the creating datagram; backlog full or listener closed: dropped with no state change); a session leaves the table only by its own Close or a reset from its own address; a foreign-conv datagram is ignored, closes, or replaces the session by a fresh one - never merged; the session at a is fed exactly the gate-passing datagrams from a with its conv since its creation; a dialled session accepts a datagram iff its source equals the remote. Tied to sess.go/readloop*.go by driving a real listener (direct packetInput calls and the real monitor goroutine over an in-memory PacketConn) with exhaustive short event orders and random multi-peer histories incl. reconnects, stale/forged/foreign datagrams, full backlog and parked Close, comparing table, queue order, created ids and per-session feed logs with the extracted model.",
-    "level_note": "Trusted: Coq kernel; extraction and ml/listener_driver.ml; the overlay harness. Sessions and the gate are abstract in the theorems (their inside is C01/C06); composition 'fed only its own peer's datagrams => reads only its peer's stream' relies on C01. The dialled-session source filter is a hand-written model compared through the real readLoop, not a generated skeleton; the recvmmsg batch paths (readloop_linux.go) are exercised by the udp engine over real loopback sockets with property oracles (no model replay there). Boundaries B3 (OOB/parity with foreign conv) and B9 (no FIN) are modelled as coded.",
+    "level_note": "Trusted: Coq kernel; extraction and ml/listener_driver.ml; the overlay harness. Sessions and the gate are abstract in the theorems (their inside is C01/C06); composition 'fed only its own peer's datagrams => reads only its peer's stream' is proved in coq/pipe (Cpipe4.v: the listener theorems instantiated with the session pipeline of the pipe engine and the ARQ core; the application's calls on the accepted session are a per-session schedule between packet inputs, not separate listener events). The dialled-session source filter is a hand-written model compared through the real readLoop, not a generated skeleton; the recvmmsg batch paths (readloop_linux.go) are exercised by the udp engine over real loopback sockets with property oracles (no model replay there). Boundaries B3 (OOB/parity with foreign conv) and B9 (no FIN) are modelled as coded.",
 }
 
 FILES = ["listener_test.go"]
@@ -33,6 +34,12 @@ def run(ctx):
         "source filter vs coq/listener/Listener.v (table keys, session identities, convs, queue length and order, "
         "which session a datagram is fed to, per-session FEC feed log, filter verdicts)")
     V.merge_report(ctx, rep, summ)
+    # composition with C01 (coq/pipe, Cpipe4.v): the session the listener keeps for address a has been fed only datagrams
+    # that came FROM a; if those are (any subset / repetition / order of) the wire history of a writer session, every core
+    # input is genuine and the bytes the application reads from the accepted session are a prefix of what that peer wrote -
+    # whatever anybody sends from other addresses
+    K.extra_statements(ctx, "pipe", "Cpipe4.v", ["pipe_listener_conv_fixed", "pipe_listener_feeds", "pipe_listener_genuine",
+                                                  "pipe_listener_fec_genuine", "pipe_listener_fec_rs_genuine"])
     U.io_part(ctx)
     U.run_parts(ctx, ["listener", "client", "neighbour"])
     if ctx.broken and not ctx.violations and ctx.quick():
